@@ -129,6 +129,30 @@ fn file_case(ctx: &Ctx, stream: &str, idx: u64, cfg: &WCfg, entries: &[Entry], r
     for n in 0..=bytes.len() {
         t.open(&bytes[..n], "truncation", n % 16 == 0 || n + 64 > bytes.len());
     }
+    // the last truncation lengths also through a real file on disk (std::fs::File seeks)
+    if idx % 20 == 0 {
+        let path = std::env::temp_dir().join(format!("vh-c13-{}-{}", std::process::id(), idx));
+        let lens: Vec<usize> = (bytes.len().saturating_sub(26)..=bytes.len()).chain(0..6).collect();
+        for n in lens {
+            if std::fs::write(&path, &bytes[..n.min(bytes.len())]).is_err() {
+                break;
+            }
+            let expect = ends_with_valid_trailer(&bytes[..n.min(bytes.len())]);
+            let r = guarded(|| std::fs::File::open(&path).map_err(grenad::Error::from).and_then(Reader::new).map(|_| ()));
+            ctx.count("opens", 1);
+            ctx.count("opens:truncation-on-disk", 1);
+            let bad = match &r {
+                Err(p) => Some(("open-panicked", format!("panic: {}", p))),
+                Ok(Ok(())) if !expect => Some(("accepted-without-valid-trailer", "Reader::new(File) returned Ok".to_string())),
+                Ok(Err(e)) if expect => Some(("rejected-valid-trailer", format!("Reader::new(File) returned Err({})", e))),
+                _ => None,
+            };
+            if let Some((sig, obs)) = bad {
+                ctx.violation(sig, stream, idx, J::obj().set("case", t.label.as_str()).set("input_class", "truncation on disk").set("input_len", n).set("observed", obs));
+            }
+        }
+        let _ = std::fs::remove_file(&path);
+    }
     // crash points: sink content after each write call, and mid-write (partial last write)
     let mut prev = 0;
     for &c in &cuts {
